@@ -125,3 +125,22 @@ def write_project(spec, d, real=False, fail=()):
         with open(os.path.join(d, "recipes", p["name"] + ".yaml"), "w") as f:
             f.write("\n".join(out) + "\n")
     return [pk[i]["name"] for i in spec["roots"]]
+
+
+def write_sandbox_project(d):
+    """root -> a (x inside the sandbox `sb`) and b (x without sandbox): the steps of x exist twice with the same
+    workspace and variant id but different sandboxes, i.e. two cook tasks per workspace"""
+    os.makedirs(os.path.join(d, "recipes"), exist_ok=True)
+    with open(os.path.join(d, "config.yaml"), "w") as f:
+        f.write('bobMinimumVersion: "0.25"\n')
+    rec = {
+        "sb": 'buildScript: "true # sb build"\npackageScript: "true # sb package"\nprovideSandbox:\n    paths: ["/bin", "/usr/bin"]\n',
+        "x": 'checkoutDeterministic: True\ncheckoutScript: "true # x checkout"\nbuildScript: "true # x build"\npackageScript: "true # x package"\n',
+        "a": 'depends:\n  - name: sb\n    use: [sandbox]\n    forward: True\n  - x\nbuildScript: "true # a build"\npackageScript: "true # a package"\n',
+        "b": 'depends: [x]\nbuildScript: "true # b build"\npackageScript: "true # b package"\n',
+        "root": 'root: True\ndepends: [a, b]\nbuildScript: "true # root build"\npackageScript: "true # root package"\n',
+    }
+    for k, v in rec.items():
+        with open(os.path.join(d, "recipes", k + ".yaml"), "w") as f:
+            f.write(v)
+    return ["root"]
